@@ -80,6 +80,18 @@ def execute_ao(sc, sched):
             break
           if uid is not None and held.count(uid) == 0 and res.outcome == 'ok':
             pass
+      if res.outcome == 'ok':
+        # "each recall moves the oldest deferred event to the back of the queue": the handler's thread puts it there
+        cons = [(seq, uid_) for seq, tn, op, uid_, _t in run.queue_ops(0) if op in ('append', 'appendleft') and tn.split('#')[0] == 'consumer']
+        prev_seq = 0
+        for i, (what, oi, uid, seq) in enumerate(run.deferlog):
+          if what == 'recall' and uid is not None:
+            if not any(prev_seq < s_ <= seq and u_ == uid for s_, u_ in cons):
+              res.violate('recall-did-not-post', {'host': 'active-object'},
+                          'recall #%d returned %r but the event was not put back into the queue of the object; log: %s' % (
+                            i, uid, [(w, u) for w, _, u, _ in run.deferlog[:i + 1]]))
+              break
+          prev_seq = seq
       nrec = sum(1 for r in run.deferlog if r[0] == 'recall' and r[2] is not None)
       if nrec:
         sim.probe('recall_in_active_object')
